@@ -16,3 +16,16 @@ func VerifFlushIdle(db Database) bool {
 	_, busy := fc.dbInFlushing.Load(db.Name())
 	return !busy
 }
+
+// VerifFlushInFlight returns the flush jobs in flight as the data flush checker of the database counts them.
+func VerifFlushInFlight(db Database) int32 {
+	d, ok := db.(*database)
+	if !ok {
+		return 0
+	}
+	fc, ok := d.flushChecker.(*dataFlushChecker)
+	if !ok {
+		return 0
+	}
+	return fc.flushInFlight.Load()
+}
